@@ -156,7 +156,11 @@ func Instances(class, suite string, honest, own []byte, owner *rsa.PrivateKey, r
 			add("nil", nil)
 		case "oaep_short":
 			add("last byte dropped", append([]byte(nil), honest[:k-1]...))
-			add("first byte dropped", append([]byte(nil), honest[1:]...))
+			if honest[0] != 0 {
+				// with a leading zero byte the shorter string is the same integer: Go's RSA accepts it
+				// and the result is the honest key, which the property does not forbid
+				add("first byte dropped", append([]byte(nil), honest[1:]...))
+			}
 			add("half", append([]byte(nil), honest[:k/2]...))
 			add("one byte", []byte{honest[0]})
 		case "oaep_long":
